@@ -410,7 +410,7 @@ def hCreatePerm (c : Cfg) (s : State) (k : Key) (tid : Nat) (cr : Cred) (peers :
     | none => {}
     | some a =>
       match (permLoop c s.now k peers a).2 with
-      | some code => { upd := .set (permLoop c s.now k peers a).1, outs := [errResp k "CreatePermission" code tid] }
+      | some code => { outs := [errResp k "CreatePermission" code tid] }   -- nothing is installed unless every peer was accepted
       | none =>
         if peers.isEmpty then { outs := [errResp k "CreatePermission" 400 tid] }
         else { upd := .set (permLoop c s.now k peers a).1, outs := [okResp k "CreatePermission" tid] }
